@@ -5,6 +5,7 @@ import os
 from datetime import datetime
 from typing import Any, Optional, Union
 
+from lark.exceptions import VisitError
 from lark import Lark, Token, Transformer, Tree  # type: ignore[import-untyped,unused-ignore]
 
 from scriptplan.core.project import Project
@@ -2019,9 +2020,21 @@ class ProjectFileParser:
             # Hundreds of nested blocks exhaust the interpreter's recursion limit in the
             # tree transformer: reject the text instead of leaking the internal error.
             raise ValueError("Project file is nested too deeply") from None
+        except OverflowError as e:
+            raise ValueError(f"A date or number in the project file is out of range: {e}") from None
+        except VisitError as e:
+            # (the tree transformer wraps what its callbacks raise)
+            if isinstance(e.orig_exc, OverflowError):
+                raise ValueError(f"A date or number in the project file is out of range: {e.orig_exc}") from None
+            raise
 
         # Schedule the project to compute task dates
         if schedule:
-            project.schedule()
+            try:
+                project.schedule()
+            except OverflowError as e:
+                # e.g. an effort that is finite as a number but beyond the calendar once it
+                # is converted into days: a rejected input, not an internal error
+                raise ValueError(f"A date or number in the project file is out of range: {e}") from None
 
         return project
